@@ -326,7 +326,7 @@ def step_harness_one(spec, h, tier, seed, log, race=False, extra_env=None, optio
         env.update(extra_env)
     cmd = ["go", "test", "-count=1", "-vet=off", "-tags", "verif",
            "-modfile=" + os.path.join(CACHE, "repo.go.mod"), "-overlay=" + ov,
-           "-run", h["test"], "-timeout", h.get("timeout", "20m")]
+           "-run", h["test"], "-timeout", h.get("timeout", "10m" if tier == "quick" else "30m")]
     if h.get("checklinkname"):
         cmd.append("-ldflags=-checklinkname=0")
     racelog = os.path.join(CACHE, f"race_{spec['id']}_{re.sub(r'[^A-Za-z0-9]', '', h['test'])}_{os.getpid()}")
